@@ -202,6 +202,9 @@ class BleAccessory:
             return tlv8.encode([(hap.T_STATE, b"\x02"), (hap.T_ERROR, b"\x01")])
         st = req.get(hap.T_STATE)
         if st == b"\x01" and req.get(hap.T_METHOD) == bytes([hap.M_RESUME]):
+            self.resume_requests = getattr(self, "resume_requests", 0) + 1
+            if getattr(self, "resume_reply_override", None) is not None:
+                return tlv8.encode(self.resume_reply_override)  # scripted answer to a resumed pair-verify M1 (an error, a wrong step)
             sid = bytes(req.get(hap.T_SESSID, b""))
             prev = self.resumable.get(sid)
             ios_pub = bytes(req.get(hap.T_PK, b""))
